@@ -205,6 +205,12 @@ func (m *Machine) vocab(name string) (Intrinsic, bool) {
 			m.finishInline(it, rr, v)
 			return false
 		}, true
+	case "vMarkCursorUp":
+		return func(m *Machine, wl *worklist, it *Item, fn *ssa.Function, args []Value, rr int) bool {
+			m.MarkCUU = true
+			m.finishInline(it, rr, nil)
+			return false
+		}, true
 	case "vSincePositive":
 		return func(m *Machine, wl *worklist, it *Item, fn *ssa.Function, args []Value, rr int) bool {
 			m.SincePositive = true
